@@ -10,3 +10,5 @@ Eval vm_compute in ("missing", filter (fun n => Nat.eqb (List.length (fns_named 
 Eval vm_compute in ("cache", bad (fn_cache_ok gen_table) PUBLIC_MUTATORS).
 Eval vm_compute in ("atomic", bad fn_atomic INPLACE_OPS).
 Eval vm_compute in ("wfirst", bad (fn_wfirst gen_table) INPLACE_OPS).
+Eval vm_compute in ("derived", map (fun f => (fname f, filter (fun p => negb (no_stale (apath (acall gen_table FUEL) p dirty))) (filter returns (fpaths f))))
+                                   (filter (fun f => negb (fn_derived_ok gen_table f)) (filter is_derived gen_table))).
